@@ -31,7 +31,7 @@ def gen_parameters(rng, tenv, findings=False):
         if n == "L" or k < 0.15:
             d["Type"] = rng.choice(["CommaDelimitedList", "List<Number>"])
             if rng.random() < 0.6:
-                d["Default"] = rng.choice(["a,b", "1,2,3", "x", "", "a,,b"])
+                d["Default"] = rng.choice(["a,b", "1,2,3", "x", "", "a,,b", "a,True,FALSE", "True", "x,{{resolve:ssm:/p/a:1}}"])
             tenv.params[n] = ["a"]
         elif n == "Num" or k < 0.3:
             d["Type"] = "Number"
@@ -47,7 +47,18 @@ def gen_parameters(rng, tenv, findings=False):
             d["Type"] = "String"
             if rng.random() < 0.7:
                 d["Default"] = rng.choice(SAFE + ["True", "FALSE", "true", "${A}", "x${!B}", "{{resolve:ssm:/p/a:1}}"])
+                if rng.random() < 0.15:
+                    # a Default written as a YAML / JSON boolean or number (Default: true, Default: 1.0): rendered with str(),
+                    # never coerced by a typed annotation (seeded change C04-r4m1)
+                    d["Default"] = rng.choice([True, False, 1, 0, 1.0, 0.0, 2.5, -3])
             tenv.params[n] = "x"
+        if rng.random() < 0.18:
+            # AllowedValues / AllowedPattern are constraints CloudFormation enforces at deploy time: resolution ignores them,
+            # whatever their spelling (booleans against "true", numbers against "80": seeded changes C01-r4m2 / C02-r4m1)
+            d["AllowedValues"] = rng.choice([[True, False], ["true", "false"], ["True", "False"], [80, 443], ["80", "443"],
+                                             ["prod", "dev"], [1, 0], []])
+        if rng.random() < 0.06:
+            d["AllowedPattern"] = rng.choice(["[a-z]+", "^(true|false)$", "\\d{1,5}", ".*"])
         if n == "Secret" or rng.random() < 0.12:
             d["NoEcho"] = rng.choice([True, "true", True, False])
         if rng.random() < 0.2:
@@ -61,11 +72,14 @@ def gen_extra(rng, decls):
     for n, d in decls.items():
         if rng.random() < 0.4:
             if d["Type"] in ("CommaDelimitedList", "List<Number>"):
-                extra[n] = rng.choice(["p,q", "9", "", "1,2"])
+                # items that resolution must still render (True -> true, an SSM reference), also in an already split list
+                # (seeded change C03-r4m1: a list-valued parameter handed out without being walked)
+                extra[n] = rng.choice(["p,q", "9", "", "1,2", "a,True,b", "FALSE", "--dry-run,True,--retries,3", "x,{{resolve:ssm:/p/a:1}}",
+                                       ["p", "True"], ["FALSE", "q", "TRUE"], ["{{resolve:ssm:/p/a:1}}", "s"], [1, True, "x"]])
             elif d["Type"] == "Number":
                 extra[n] = rng.choice(["42", 42, "0"])
             else:
-                extra[n] = rng.choice(SAFE + ["TRUE", "supplied"])
+                extra[n] = rng.choice(SAFE + ["TRUE", "supplied", "true", "false", "False", "80", "443", "prod", True, False, 80, 1.0])
     if rng.random() < 0.3:
         extra[rng.choice(["Undeclared", "Z9", "Missing"])] = rng.choice(SAFE)
     if rng.random() < 0.3:
@@ -307,13 +321,34 @@ def gen_template(rng, focus="values", findings=False):
     return {"template": t, "extra": gen_extra(rng, decls)}
 
 
-def model_args(m, extra):
+def raw_param_decls(m, template=None):
+    """Parameter declarations for the model: the template's OWN text for Default (a typed annotation on Parameter.Default must not
+    be able to rewrite it unnoticed: seeded change C04-r4m1 turned `Default: true` into 1 inside the parse both sides shared),
+    the parsed value only for NoEcho (pydantic's lenient bool: a leaf) and Type."""
+    dump = m.model_dump().get("Parameters") or {}
+    raw = (template or {}).get("Parameters") if isinstance(template, dict) else None
+    if not isinstance(raw, dict):
+        return dump
+    out = {}
+    for name, d in dump.items():
+        r = raw.get(name)
+        d = dict(d)
+        if isinstance(r, dict):
+            if "Default" in r:
+                d["Default"] = r["Default"]
+            else:
+                d["Default"] = None
+        out[name] = d
+    return out
+
+
+def model_args(m, extra, template=None):
     """Arguments of Template.resolve_model taken from the parsed model (dump = what CFModel.resolve works on)."""
     from pycfmodel.model.cf_model import CFModel
     dump = m.model_dump()
     return [
         resgen.to_wire(dict(CFModel.PSEUDO_PARAMETERS)),
-        resgen.to_wire(dump.get("Parameters") or {}),
+        resgen.to_wire(raw_param_decls(m, template)),
         resgen.to_wire(extra),
         resgen.to_wire(m.Mappings or {}),
         resgen.to_wire(dump.get("Conditions") or {}),
@@ -364,7 +399,7 @@ class E2ESurface(core.Surface):
             m = pycfmodel.parse(copy.deepcopy(x["template"]))
         except Exception:
             return ("EXC", "EUndefined", "")
-        r = core.model_res(rn.call(102, model_args(m, x["extra"])))
+        r = core.model_res(rn.call(102, model_args(m, x["extra"], x["template"])))
         if r[0] != "OK":
             return r
         out = from_wire(r[1])
